@@ -20,6 +20,8 @@ import (
 
 	"github.com/hprose/hprose-golang/v3/internal/convert"
 	"github.com/modern-go/reflect2"
+
+	"github.com/hprose/hprose-golang/v3/internal/verifhook"
 )
 
 // structEncoder is the implementation of ValueEncoder for named struct/*struct.
@@ -85,6 +87,9 @@ func getNamedStructEncoder(t reflect.Type) ValueEncoder {
 func newNamedStructEncoder(t reflect.Type, name string, tag ...string) *structEncoder {
 	encoder := &structEncoder{}
 	registerNamedStructEncoder(t, encoder)
+	if verifhook.On {
+		verifhook.Gate("io.structEncoderPublished", t)
+	}
 	fields := getFields(t, tag...)
 	n := len(fields)
 	var metadata []byte
